@@ -641,6 +641,19 @@ func (e *evaluator) evaluate(node parser.Node, current any, variables *variableS
 		}
 
 		return e.evaluate(node.Right, left, variables)
+	case *parser.SubExpressionNode:
+		left, err := e.evaluate(node.Left, current, variables)
+		if err != nil {
+			return nil, err
+		}
+
+		if left == nil {
+			// unlike a pipe, a sub-expression ends with null when its
+			// left side is null: a.type(@) is null, a | type(@) is "null"
+			return nil, nil
+		}
+
+		return e.evaluate(node.Right, left, variables)
 	case *parser.ProjectArrayNode:
 		left, err := e.evaluate(node.Left, current, variables)
 		if err != nil {
